@@ -267,6 +267,14 @@ func Build(v sb.V) interface{} {
 		return Level(int(v.N))
 	case "embednil":
 		return Page{Title: v.S}
+	case "dag":
+		// 40 levels of lists that share their sub-lists: small in memory, 2^40
+		// paths for a comparison that does not remember what it has compared
+		var g stick.Value = []stick.Value{"leaf"}
+		for i := 0; i < 40; i++ {
+			g = []stick.Value{g, g}
+		}
+		return g
 	case "funcmap":
 		// functions held in a hash, as an application puts helpers in the context
 		return map[string]stick.Value{
@@ -584,6 +592,9 @@ func OwnStr(v interface{}) string {
 		}
 		return ""
 	case stick.SafeValue:
+		if isNilPtr(v) {
+			return ""
+		}
 		return OwnStr(x.Value())
 	case fmt.Stringer:
 		return x.String()
